@@ -721,6 +721,11 @@ func (t *Transition) emitEvents() Result {
 			result = Canceled
 		}
 
+		// a panic is not a partial auto state rejection, it cancels everything
+		if !t.IsAccepted.Load() {
+			result = Canceled
+		}
+
 		// global AnyEnter handler
 		if result != Canceled {
 			result = t.emitHandler(StateAny, StateAny, false, true,
